@@ -123,9 +123,11 @@ type rewriter struct {
 	usedRT   bool
 	changed  bool
 	n        int
-	skip     map[ast.Node]bool      // comm statements of select clauses and their top-level operation
-	recvs    map[*ast.CallExpr]bool // generated simrt.Recv calls (upgradable to Recv2)
+	skip     map[ast.Node]bool          // comm statements of select clauses and their top-level operation
+	recvs    map[*ast.CallExpr]bool     // generated simrt.Recv calls (upgradable to Recv2)
 	gosched  map[*ast.SelectorExpr]bool // runtime.Gosched, to become simrt.Gosched
+	keyIdx   map[*ast.IndexExpr]bool    // m[k] on the left of an assignment, k of a type whose values have identity only (pointer, channel, ...)
+	keyLits  map[*ast.KeyValueExpr]bool // the same in a map literal
 	rkind    map[*ast.RangeStmt]string
 	goConst  map[*ast.GoStmt][]bool // argument is an untyped constant or nil: inline it
 	goDirect map[*ast.GoStmt]bool   // the callee names a declared function (possibly generic, possibly of another package): nothing to evaluate at the go statement
@@ -161,6 +163,80 @@ func isBlank(e ast.Expr) bool {
 }
 
 // coreKind classifies a type as "map", "chan" or "".
+// mapType returns the map type behind t (directly, or as the single core type of a
+// type parameter).
+func mapType(t types.Type) (*types.Map, bool) {
+	if t == nil {
+		return nil, false
+	}
+	if m, ok := t.Underlying().(*types.Map); ok {
+		return m, true
+	}
+	if tp, ok := t.(*types.TypeParam); ok {
+		var found *types.Map
+		n := 0
+		var visit func(t types.Type)
+		visit = func(t types.Type) {
+			switch x := t.(type) {
+			case *types.Union:
+				for i := 0; i < x.Len(); i++ {
+					visit(x.Term(i).Type())
+				}
+			default:
+				switch y := x.Underlying().(type) {
+				case *types.Map:
+					found = y
+					n++
+				case *types.Interface:
+					for i := 0; i < y.NumEmbeddeds(); i++ {
+						visit(y.EmbeddedType(i))
+					}
+				}
+			}
+		}
+		visit(tp.Constraint())
+		if n == 1 {
+			return found, true
+		}
+	}
+	return nil, false
+}
+
+// identityKey reports whether values of the key type may have identity only - no
+// content that orders them the same way in every process: pointers, channels,
+// unsafe pointers, and anything that may hold one (interfaces, type parameters).
+// Map iteration order over such keys is made replayable by giving each key an
+// ordinal when it is inserted (simrt.Key), which is program order and therefore the
+// same in every execution of a seed.
+func identityKey(t types.Type) bool {
+	switch u := t.(type) {
+	case *types.TypeParam:
+		return true
+	default:
+		switch b := u.Underlying().(type) {
+		case *types.Pointer, *types.Chan, *types.Interface:
+			return true
+		case *types.Basic:
+			return b.Kind() == types.UnsafePointer
+		}
+	}
+	return false
+}
+
+// noteKey records e when it is m[k] with a map m whose keys have identity only.
+func (r *rewriter) noteKey(e ast.Expr) {
+	ix, ok := e.(*ast.IndexExpr)
+	if !ok {
+		return
+	}
+	if mt, ok := mapType(r.info.TypeOf(ix.X)); ok && identityKey(mt.Key()) {
+		if r.keyIdx == nil {
+			r.keyIdx = map[*ast.IndexExpr]bool{}
+		}
+		r.keyIdx[ix] = true
+	}
+}
+
 func coreKind(t types.Type) string {
 	if t == nil {
 		return ""
@@ -280,6 +356,23 @@ func (r *rewriter) rewrite() bool {
 			}
 		case *ast.RangeStmt:
 			r.rkind[x] = coreKind(r.info.TypeOf(x.X))
+		case *ast.AssignStmt:
+			for _, l := range x.Lhs {
+				r.noteKey(l)
+			}
+		case *ast.IncDecStmt:
+			r.noteKey(x.X)
+		case *ast.CompositeLit:
+			if mt, ok := mapType(r.info.TypeOf(x)); ok && identityKey(mt.Key()) {
+				for _, e := range x.Elts {
+					if kv, ok := e.(*ast.KeyValueExpr); ok {
+						if r.keyLits == nil {
+							r.keyLits = map[*ast.KeyValueExpr]bool{}
+						}
+						r.keyLits[kv] = true
+					}
+				}
+			}
 		case *ast.GoStmt:
 			cs := make([]bool, len(x.Call.Args))
 			for i, a := range x.Call.Args {
@@ -358,6 +451,16 @@ func (r *rewriter) rewrite() bool {
 				if ce, ok := x.Values[0].(*ast.CallExpr); ok && r.recvs[ce] {
 					ce.Fun = rt("Recv2")
 				}
+			}
+		case *ast.IndexExpr:
+			if r.keyIdx[x] {
+				x.Index = call(rt("Key"), x.Index)
+				r.mark()
+			}
+		case *ast.KeyValueExpr:
+			if r.keyLits[x] {
+				x.Key = call(rt("Key"), x.Key)
+				r.mark()
 			}
 		case *ast.CallExpr:
 			if se, ok := x.Fun.(*ast.SelectorExpr); ok && r.gosched[se] {
